@@ -85,6 +85,9 @@ class RIThing(RemoteInterface):
     def multi(a=ListOf(int), b=ListOf(int), c=ListOf(int)):
         return int
 
+    def tboom(a=int):
+        return int
+
 
 EXECUTED = []      # names of the remote methods that really ran on the callee B, in order (reset per batch)
 FAR_EXECUTED = []  # ... on the third party C
@@ -119,6 +122,10 @@ class Plain(Referenceable):
     def remote_text(self):
         self._ran("text")
         return u"text"
+
+    def remote_call(self, x=None, **kw):           # method name and keyword names that are vocabulary words
+        self._ran("call")
+        return [x, sorted(kw.items())]
 
     def remote_echo3(self, a, b, c):
         self._ran("echo3")
@@ -161,6 +168,10 @@ class Typed(Referenceable):
         EXECUTED.append("wrongresult")
         return "not an int"
 
+    def remote_tboom(self, a):
+        EXECUTED.append("tboom")
+        raise MyError(message(["vocab", a]))
+
     def remote_multi(self, a, b, c):
         EXECUTED.append("multi")
         return len(a) + len(b) + len(c)
@@ -191,6 +202,10 @@ def message(spec):
         return "x" * (n % 4) + u"\U0001F600" * n
     if kind == "nul":
         return "\x00\n\"" * n
+    if kind in ("vocab", "vocab+"):   # exactly a word of the negotiated vocabulary table (sent as a VOCAB token) / a near miss
+        from foolscap import vocab as _v
+        w = _v.INITIAL_VOCAB_TABLES[1]
+        return w[n % len(w)].decode("ascii") + ("s" if kind == "vocab+" else "")
     if kind == "surrogate":      # a lone surrogate, as produced by surrogateescape'd file names: not encodable as UTF-8
         return u"ab\udcffcd" * n
     raise ValueError(kind)
@@ -239,12 +254,14 @@ SHARED_VARIANTS = ["twice", "dictalias", "nested", "mixed"]
 
 
 # ------------------------------------------------------------------ one batch
-def pair(tubid_target, tubid_caller):
-    """two Brokers back to back on loopback transports; the first lives in Tub `tubid_target`"""
+def pair(tubid_target, tubid_caller, vocab=None):
+    """two Brokers back to back on loopback transports; the first lives in Tub `tubid_target`.  vocab = index of the
+    negotiated initial vocabulary table (every real Tub connection uses 1; the unit tests' Brokers use none)"""
     from foolscap.test.common import Loopback
     from foolscap.referenceable import TubRef
-    tb = broker.Broker(TubRef(tubid_caller))      # its peer is the caller
-    cb = broker.Broker(TubRef(tubid_target))
+    params = {"initial-vocab-table-index": vocab} if vocab else {}
+    tb = broker.Broker(TubRef(tubid_caller), params)      # its peer is the caller
+    cb = broker.Broker(TubRef(tubid_target), params)
     t1 = Loopback(); t1.peer = cb; t1.protocol = tb; tb.transport = t1
     t2 = Loopback(); t2.peer = tb; t2.protocol = cb; cb.transport = t2
     tb.connectionMade(); cb.connectionMade()
@@ -256,9 +273,18 @@ TUB_A, TUB_B, TUB_C = "a" * 32, "b" * 32, "c" * 32
 
 def setup(opts):
     """A (caller) <-> B (callee); B <-> C (B relays calls to C); A <-> C (A holds references into C: gifts for B)"""
-    tb, cb = pair(TUB_B, TUB_A)
+    vocab = opts.get("vocab")
+    tb, cb = pair(TUB_B, TUB_A, vocab)
     net = None
     gm = opts.get("gift_mode")
+    logs = opts.get("logs")         # (caller logLocalFailures, caller logRemoteFailures, callee logLocal.., callee logRemote..)
+    if logs is not None:
+        from foolscap.api import Tub
+        for b, (ll, lr), i in ((cb, logs[0:2], 1), (tb, logs[2:4], 0)):
+            t = Tub(certData=E.pem(i))
+            t.setOption("logLocalFailures", bool(ll))
+            t.setOption("logRemoteFailures", bool(lr))
+            b.setTub(t)
     if gm:
         # gifts need a Tub on the receiving side: one that refuses them, or one that cannot reach the third party
         from foolscap.api import Tub
@@ -268,6 +294,9 @@ def setup(opts):
         else:
             net = E.Net()
             tub = E.make_tub(net, "b", E.pem(0))
+        if logs is not None:
+            tub.setOption("logLocalFailures", bool(logs[2]))
+            tub.setOption("logRemoteFailures", bool(logs[3]))
         tb.setTub(tub)
     for b in (tb, cb):
         b.unsafeTracebacks = bool(opts.get("unsafe", True))
@@ -280,9 +309,11 @@ def setup(opts):
         return user.getTrackerForYourReference(tr.clid, iname, url).getRef()
     rr_plain = export(tb, cb, plain)
     rr_typed = export(tb, cb, typed)     # the caller does not know the interface: only the callee checks
+    typed2 = Typed()
+    rr_typed_known = export(tb, cb, typed2, RIThing.__remote_name__)   # here the caller knows it too
     rr_bogus = cb.getTrackerForYourReference(9999, None).getRef()
     # B -> C
-    c_b, b_c = pair(TUB_C, TUB_B)
+    c_b, b_c = pair(TUB_C, TUB_B, vocab)
     c_b.unsafeTracebacks = b_c.unsafeTracebacks = bool(opts.get("unsafe", True))
     b_c._expose_remote_exception_types = bool(opts.get("middle_expose", True))
     far = Plain()
@@ -290,12 +321,12 @@ def setup(opts):
     relay = Relay(export(c_b, b_c, far))
     rr_relay = export(tb, cb, relay)
     # A -> C
-    c_a, a_c = pair(TUB_C, TUB_A)
+    c_a, a_c = pair(TUB_C, TUB_A, vocab)
     thing = Thing()
     hint = "tcp:c.example.org:1234" if gm != "unresolvable" else "fake:nosuch:1"
     rr_thing = export(c_a, a_c, thing, url="pb://%s@%s/thing" % (TUB_C, hint))
-    rrs = dict(plain=rr_plain, typed=rr_typed, bogus=rr_bogus, relay=rr_relay, thing=rr_thing)
-    keep = (plain, typed, far, relay, thing, c_b, b_c, c_a, a_c, net)
+    rrs = dict(plain=rr_plain, typed=rr_typed, typed_known=rr_typed_known, bogus=rr_bogus, relay=rr_relay, thing=rr_thing)
+    keep = (plain, typed, typed2, far, relay, thing, c_b, b_c, c_a, a_c, net)
     return tb, cb, rrs, keep
 
 
@@ -316,6 +347,10 @@ def slot_value(kind, i):
         return [i, Unsendable()]
     if kind == "slicer-raises":
         return [i, RaisingSlicer(1)]
+    if kind in ("vocab", "vocab+"):   # exactly a word of the negotiated vocabulary table (sent as a VOCAB token) / a near miss
+        from foolscap import vocab as _v
+        w = _v.INITIAL_VOCAB_TABLES[1]
+        return w[n % len(w)].decode("ascii") + ("s" if kind == "vocab+" else "")
     if kind == "surrogate":
         return [i, u"ab\udcffcd"]
     raise ValueError(kind)
@@ -323,6 +358,12 @@ def slot_value(kind, i):
 
 def multi_args(spec):
     return [slot_value(k, i) for i, k in enumerate(spec["slots"])]
+
+
+def vocab_value(spec):
+    w = message(["vocab", spec["i"]])
+    return {"bytes": w.encode("ascii"), "str": w, "key": {w.encode("ascii"): 1, w: [w.encode("ascii")]},
+            "list": [w.encode("ascii"), w, w.encode("ascii")]}[spec["as"]]
 
 
 def issue(rrs, spec):
@@ -338,6 +379,14 @@ def issue(rrs, spec):
         return rrs["typed"].callRemote("multi" if spec.get("known", True) else "nosuchmulti", a[0], b=a[1], c=a[2])
     if k == "ok":
         return rrs["plain"].callRemote("echo", spec["v"])
+    if k == "ok-vocab":             # fault-free values that are vocabulary words, wherever a string token goes
+        return rrs["plain"].callRemote("echo", vocab_value(spec))
+    if k == "vocab-method":
+        return rrs["plain"].callRemote("call", x=spec["i"], **{message(["vocab", spec["i"]]).replace("-", "_"): 1})
+    if k == "typed-ok":             # the caller knows the RemoteInterface
+        return rrs["typed_known"].callRemote("ints", [1, 2, 3])
+    if k == "typed-raise":          # a target WITH a RemoteInterface raises; known=False: the caller does not know the interface
+        return rrs["typed_known" if spec.get("known", True) else "typed"].callRemote("tboom", spec["i"])
     if k == "relay":                # A calls B, B calls C, C raises: what does A get?
         return rrs["relay"].callRemote("relay_boom", spec["cls"], spec["msg"][0], spec["msg"][1])
     if k == "relay-ok":
@@ -476,7 +525,7 @@ def _run_batch(specs, opts):
             escaped = "callRemote raised %r" % (e,)
     try:
         E.turn()
-        net = targets[-1]
+        net = targets[-1]      # (the in-memory network of the callee's Tub, when it has one)
         if net is not None:         # let the callee's Tub try (and fail) to reach the third party, in virtual time
             for i in range(4):
                 net.run()
